@@ -90,7 +90,7 @@ func NewFastHTTPHandler(h http.Handler) fasthttp.RequestHandler {
 			// Buffered, no Flush() nor Hijack().
 			ctx.SetStatusCode(w.status())
 			haveContentType := false
-			for k, vv := range w.Header() {
+			for k, vv := range w.sentHeader() {
 				if k == fasthttp.HeaderContentType {
 					haveContentType = true
 				}
@@ -119,7 +119,7 @@ func NewFastHTTPHandler(h http.Handler) fasthttp.RequestHandler {
 			ctx.SetStatusCode(w.status())
 
 			haveContentType := false
-			for k, vv := range w.Header() {
+			for k, vv := range w.sentHeader() {
 				// No Content-Length when streaming.
 				if k == fasthttp.HeaderContentLength {
 					continue
@@ -201,6 +201,7 @@ const (
 type writer struct {
 	ctx        *fasthttp.RequestCtx
 	h          http.Header
+	hSent      http.Header // snapshot of h taken when the status was fixed
 	statusCode atomic.Int64
 
 	mu           sync.Mutex
@@ -256,10 +257,33 @@ func (w *writer) WriteHeader(code int) {
 	if code >= 100 && code <= 199 && code != http.StatusSwitchingProtocols {
 		return
 	}
-	w.statusCode.CompareAndSwap(0, int64(code))
+	w.fixHeader(int64(code))
+}
+
+// statusImplicit marks the status as fixed by a Write or Flush that was not
+// preceded by WriteHeader: the default status applies.
+const statusImplicit = -1
+
+// fixHeader fixes the status code and snapshots the header map the first time
+// it is called. Like in net/http, later WriteHeader calls and later changes
+// of the header map do not affect the response.
+func (w *writer) fixHeader(code int64) {
+	if w.statusCode.CompareAndSwap(0, code) {
+		w.hSent = w.h.Clone()
+	}
+}
+
+// sentHeader returns the header map in force for the response.
+func (w *writer) sentHeader() http.Header {
+	if w.hSent != nil {
+		return w.hSent
+	}
+	return w.h
 }
 
 func (w *writer) Write(p []byte) (int, error) {
+	w.fixHeader(statusImplicit)
+
 	select {
 	case <-w.streamReady:
 		return w.pw.Write(p)
@@ -284,6 +308,7 @@ func (w *writer) Write(p []byte) (int, error) {
 }
 
 func (w *writer) Flush() {
+	w.fixHeader(statusImplicit)
 	w.flushOnce.Do(func() {
 		select {
 		case w.modeCh <- modeFlushed:
@@ -352,7 +377,7 @@ func (w *writer) Close() error {
 // status returns the effective status code (defaults to 200).
 func (w *writer) status() int {
 	code := int(w.statusCode.Load())
-	if code == 0 {
+	if code <= 0 {
 		// No WriteHeader was called; check if ctx already has a status code set
 		// by a caller before NewFastHTTPHandler ran.
 		if ctxCode := w.ctx.Response.StatusCode(); ctxCode != 0 {
